@@ -11,7 +11,7 @@ for f in sorted(glob.glob(os.path.join(ROOT, "seeded", "*", "meta.json"))):
                  (d.get("title") or "").replace("|", "/"), (d.get("needs_to_manifest") or "").replace("|", "/").replace("\n", " ")))
 n = len(rows)
 first_q = sum(1 for r in rows if r[2] == "quick"); first_t = sum(1 for r in rows if r[2] == "thorough"); first_n = sum(1 for r in rows if r[2] == "no")
-now_q = sum(1 for r in rows if r[3] == "quick"); now_t = sum(1 for r in rows if r[3] == "thorough"); now_n = sum(1 for r in rows if r[3] == "no")
+now_q = sum(1 for r in rows if r[3] == "quick"); now_t = sum(1 for r in rows if r[3] == "thorough"); now_n = sum(1 for r in rows if r[3] == "no"); now_s = sum(1 for r in rows if r[3] == "superseded")
 out = ["# Independently seeded changes", "",
        "Each directory holds one change to seehuhn/go-pdf produced by a fresh sub-agent that saw only the text of one",
        "property and a scratch worktree (nothing from /verif): `patch.diff`, the agent's demonstration (`*_test.go`),",
@@ -23,7 +23,7 @@ out = ["# Independently seeded changes", "",
        "check and restores the tree.", "",
        "`first` is the outcome when the change was first evaluated; `now` is the outcome after the checks were",
        "strengthened in response to the misses (the strengthening is described in DESIGN.md section 8.5).", "",
-       "Totals: %d changes; first evaluation: %d caught in the quick tier, %d only in the thorough tier, %d missed; now: %d quick, %d thorough only, %d missed." % (n, first_q, first_t, first_n, now_q, now_t, now_n),
+       "Totals: %d changes; first evaluation: %d caught in the quick tier, %d only in the thorough tier, %d missed; now: %d quick, %d thorough only, %d missed, %d superseded by a repair of /repo." % (n, first_q, first_t, first_n, now_q, now_t, now_n, now_s),
        "", "| change | check | first | now | confirmed | what it is | what it needs to manifest |", "|---|---|---|---|---|---|---|"]
 for r in rows:
     out.append("| %s | %s | %s | %s | %s | %s | %s |" % (r[0], r[1], r[2], r[3], "yes" if r[4] else "NO", r[5][:140], r[6][:220]))
